@@ -255,6 +255,18 @@ func (e *Engine) resolveType(pkg string, expr string) (types.Type, error) {
 	}
 	tv, err := types.Eval(e.fset, p.Types, token.NoPos, "(*struct{x "+expr+"})(nil)")
 	if err != nil {
+		// retry inside each file's scope so that the file's imports are visible
+		for _, f := range p.Syntax {
+			if len(f.Decls) == 0 {
+				continue
+			}
+			if tv2, err2 := types.Eval(e.fset, p.Types, f.Decls[len(f.Decls)-1].Pos(), "(*struct{x "+expr+"})(nil)"); err2 == nil {
+				tv, err = tv2, nil
+				break
+			}
+		}
+	}
+	if err != nil {
 		return nil, fmt.Errorf("cannot resolve type %q in %s: %v", expr, pkg, err)
 	}
 	t := tv.Type.(*types.Pointer).Elem().(*types.Struct).Field(0).Type()
